@@ -809,6 +809,7 @@ func TestVerifC16Concurrent(t *testing.T) {
 		nkeys := rapid.SampledFrom([]int{4, 12, 40, 200}).Draw(rt, "nkeys")
 		opsPer := rapid.SampledFrom([]int{200, 1000, 3000}).Draw(rt, "ops")
 		mix := rapid.IntRange(0, 2).Draw(rt, "mix") // 0 add-heavy, 1 add/remove, 2 cas-heavy
+		clears := rapid.IntRange(0, 2).Draw(rt, "clears") == 0
 		keys := make([]uint64, 0, nkeys)
 		for i := 0; i < nkeys; i++ {
 			keys = append(keys, vfC16SegKeyGen(256).Draw(rt, "k"))
@@ -863,6 +864,8 @@ func TestVerifC16Concurrent(t *testing.T) {
 					op := x & 0xff
 					v := &vfC16Val{k, w<<24 | i}
 					switch {
+					case clears && w == 0 && op == 255 && i%7 == 0:
+						c.data.Clear() // the whole table, while the other writers go on storing
 					case mix == 0 && op < 230, mix == 1 && op < 128, mix == 2 && op < 90:
 						c.Add(k, v)
 						if l := int64(c.Len()); l > maxLen.Load() {
@@ -923,6 +926,9 @@ func TestVerifC16Concurrent(t *testing.T) {
 		vfstat.Eval(U, 1)
 		cls := fmt.Sprintf("cap%d-w%d-keys%d-mix%d", capacity, W, nkeys, mix)
 		over := nkeys > capacity
+		if clears {
+			vfstat.Class(U, "clear-while-writing")
+		}
 		if over {
 			vfstat.Class(U, "over-capacity")
 			vfstat.NonTrivial(U, cls+fmt.Sprint(opsPer, R))
